@@ -162,14 +162,33 @@ pub struct Outcome {
     pub premature: Vec<String>,
 }
 
+/// Where the server's SYN+ACK is in the capture: in its place, not at all (one-directional loss,
+/// asymmetric routing), or only after some of the server's data segments have already arrived.
+#[derive(Clone, Copy, Debug, PartialEq)]
+pub enum SynAck {
+    Seen,
+    Missing,
+    AfterServerSegments(usize),
+}
+
 /// Deliver SYN, SYN+ACK, ACK and then the data segments in the given order.
 pub fn deliver(which: Which, ex: &Exchange, c_isn: u32, s_isn: u32, order: &[DataSeg]) -> Result<Outcome, String> {
+    deliver_with(which, ex, c_isn, s_isn, order, SynAck::Seen)
+}
+
+pub fn deliver_with(which: Which, ex: &Exchange, c_isn: u32, s_isn: u32, order: &[DataSeg], synack: SynAck) -> Result<Outcome, String> {
     let mut runner = Runner::new(which, 16, false);
     let mut s = Script::new(ex.ep.clone(), ex.link, c_isn, s_isn);
     s.handshake();
     let mut t = scenario::T0;
     let mut out = Outcome { reqs: vec![], ress: vec![], premature: vec![] };
-    for f in s.frames.clone() {
+    let hs = s.frames.clone();
+    let late_synack = if synack == SynAck::Seen { None } else { hs.get(1).cloned() };
+    let mut server_segs_seen = 0usize;
+    for (k, f) in hs.into_iter().enumerate() {
+        if k == 1 && synack != SynAck::Seen {
+            continue;
+        }
         t += 1;
         let lines = runner.feed(t, &f)?;
         for l in lines {
@@ -194,6 +213,14 @@ pub fn deliver(which: Which, ex: &Exchange, c_isn: u32, s_isn: u32, order: &[Dat
             del_c.push((d.offset, d.bytes.len()));
         } else {
             del_s.push((d.offset, d.bytes.len()));
+            if synack == SynAck::AfterServerSegments(server_segs_seen) {
+                if let Some(sa) = &late_synack {
+                    // the late SYN+ACK reports nothing HTTP
+                    let _ = runner.feed(t, sa)?;
+                    t += 1;
+                }
+            }
+            server_segs_seen += 1;
         }
         let lines = runner.feed(t, &f)?;
         for l in lines {
@@ -343,7 +370,11 @@ struct Judge<'a> {
 }
 
 fn judge(ctx: &mut Ctx, j: &Judge, tag: &str, c_isn: u32, s_isn: u32, order: &[DataSeg]) {
-    let got = match deliver(j.which, j.ex, c_isn, s_isn, order) {
+    judge_with(ctx, j, tag, c_isn, s_isn, order, SynAck::Seen)
+}
+
+fn judge_with(ctx: &mut Ctx, j: &Judge, tag: &str, c_isn: u32, s_isn: u32, order: &[DataSeg], synack: SynAck) {
+    let got = match deliver_with(j.which, j.ex, c_isn, s_isn, order, synack) {
         Ok(g) => g,
         Err(p) => {
             ctx.judge(false, &[], "panic during HTTP stream reassembly", || json!({"panic": p, "case": tag}));
@@ -354,7 +385,7 @@ fn judge(ctx: &mut Ctx, j: &Judge, tag: &str, c_isn: u32, s_isn: u32, order: &[D
     ctx.judge(ok, &[], "reported request/response depends on segmentation, sequence origin or arrival order", || {
         json!({
             "case": tag, "analyzer": format!("{:?}", j.which), "endpoints": j.ex.ep.key(), "http2": j.ex.h2,
-            "client_isn": c_isn, "server_isn": s_isn,
+            "client_isn": c_isn, "server_isn": s_isn, "syn_ack": format!("{synack:?}"),
             "delivery": order.iter().map(|d| json!({"dir": if d.from_client {"c"} else {"s"}, "offset": d.offset, "len": d.bytes.len()})).collect::<Vec<_>>(),
             "request_hex": hex(&j.ex.req), "response_hex": hex(&j.ex.res),
             "expected_requests": j.base.reqs, "actual_requests": got.reqs,
@@ -547,6 +578,37 @@ pub fn run(ctx: &mut Ctx) {
             let si = *r.pick(&isns);
             judge(ctx, &j, if d % 3 == 2 { "retransmit-overlap-shuffled" } else { "retransmit-overlap" }, ci, si, &o);
         }
+
+        // G: the server's SYN+ACK is not in the capture, or arrives only after some of the
+        // server's data ("every connection opened by a SYN"): the server's stream then has to be
+        // anchored by its serially earliest segment, whichever arrives first
+        // (HTTP/1.x exchanges only: an HTTP/2 server stream cut at a frame boundary legitimately
+        // reads as a stream of its own from there, so without the SYN+ACK "its head" is not
+        // defined by the bytes alone)
+        let gn = if ex.h2 { 0 } else { ctx.scale(8, 40, 1) };
+        for d in 0..gn {
+            let (kc, ks) = (1 + r.usize(3), 2 + r.usize(4));
+            let cc = rand_cuts(&mut r, ex.req.len(), kc);
+            let sc = rand_cuts(&mut r, ex.res.len(), ks);
+            let cs = segs_of(&ex.req, &cc, true);
+            let mut ss = segs_of(&ex.res, &sc, false);
+            match d % 3 {
+                0 => {}
+                1 => r.shuffle(&mut ss),
+                _ => {
+                    if ss.len() > 1 {
+                        ss.swap(0, 1);
+                    }
+                }
+            }
+            // request first (complete, in order), then the server's segments
+            let o: Vec<DataSeg> = cs.into_iter().chain(ss.into_iter()).collect();
+            let nserver = o.iter().filter(|x| !x.from_client).count();
+            let synack = if d % 2 == 0 { SynAck::Missing } else { SynAck::AfterServerSegments(1 + r.usize(nserver.max(1))) };
+            let ci = *r.pick(&isns);
+            let si = *r.pick(&isns);
+            judge_with(ctx, &j, if synack == SynAck::Missing { "syn-ack-not-captured" } else { "syn-ack-captured-late" }, ci, si, &o, synack);
+        }
     }
     if let Some(l) = lane.take() {
         l.shutdown();
@@ -571,6 +633,7 @@ pub fn spec() -> PropSpec {
         shards: super::shards_16,
         rule: "seeded HTTP/1.x and HTTP/2 exchanges are delivered to the HTTP (and unified) analyzer after SYN / SYN+ACK under: every 2-cut of request and response (in order, swapped, reordered), every initial sequence number within one stream length of 2^32 for both directions, all permutations of up to 5 client segments, random partitions of both directions in random or bounded-displacement order, and partitions with retransmitted segments and re-segmented overlaps (the stream's own bytes, in order or shuffled); 3..6 of the random deliveries per exchange also go through an HTTP worker pool of 2..8 workers frame by frame; each delivery must report exactly the baseline's request and response (canonical equality, correct direction, once) and never while the delivered segments do not yet cover the contiguous prefix up to the end of the head; a bucket is a distinct (family, analyzer, protocol, segment count, in-order/reordered, client/server wrap) combination",
         assumptions: &[
+            "family G (SYN+ACK not captured / captured after 1..n server segments) is run for HTTP/1.x exchanges only: an HTTP/2 server stream cut at a frame boundary reads as a stream of its own from there, so without the SYN+ACK the start of 'its head' is not defined by the bytes",
             "SYN and SYN+ACK are always delivered first (the property's precondition); retransmitted and overlapping segments always repeat the stream's own bytes (conflicting overlaps are not generated); no FIN or RST",
             "HTTP/2 header blocks are carried in a single HEADERS frame with END_HEADERS (CONTINUATION/PADDED framing is C16's subject)",
         ],
